@@ -345,6 +345,35 @@ def _split_args(s):
 def expand_literal(T, lit, depth=0):
     """alternatives for one literal: if it is a call `helper(args)` / `!helper(args)` of a bool-returning crate function whose truth condition
     is known, the list of clause literal sets of that condition with the parameters replaced by the argument terms; else [[lit]]"""
+    # `ok(helper(args))`: a Result-returning private helper of the crate that returned Ok -> the conditions under which it returns Ok
+    mo = re.fullmatch(r'ok\(([A-Za-z_][\w:]*)\((.*)\)\)', lit)
+    if mo and depth <= 2:
+        short, args = mo.groups()
+        cands = [n for n in T.prog.bodies if (n == short or n.endswith('::' + short)) and T.prog.bodies[n].get('kind') in ('fn', 'assoc') and str(T.prog.bodies[n].get('ret', '')).startswith('std::result::Result<')]
+        if len(cands) == 1:
+            h = cands[0]
+            hf = T.prog.fn(h)
+            if len(hf.B) <= 80:
+                key = ('okcond', h)
+                if key not in T._truth:
+                    try:
+                        eng, hits = ret_hits(hf, maxstates=20000)
+                        T._truth[key] = [sorted(fact_literals(T, hf, facts)) for cls, facts, env, k_, bi in hits if cls == 'Ok'][:8]
+                    except Exception:
+                        T._truth[key] = None
+                alts = T._truth[key]
+                params = [hf.name_of(k) for k in range(1, hf.argc + 1)]
+                actual = _split_args(args)
+                if alts and len(actual) == len(params):
+                    out = []
+                    for clause in alts:
+                        lits = []
+                        for l in clause:
+                            for p, a in zip(params, actual):
+                                l = re.sub(r'(?<![\w.])%s(?![\w])' % re.escape(p), a.replace('\\', '\\\\'), l)
+                            lits.append(l)
+                        out.append(lits + [lit])
+                    return out[:8]
     m = re.fullmatch(r'(!?)([A-Za-z_][\w:]*)\((.*)\)', lit)
     if not m or depth > 2:
         return [[lit]]
